@@ -78,10 +78,10 @@ class Ctx:
                            [rep.get("trace")])
 
     # ---- binding self-test ----------------------------------------------------------------
-    def selftest_corruption(self, spec, trace, pick, expect_inv, cfg="Trace.cfg", heap="3g", every=False):
+    def selftest_corruption(self, spec, trace, pick, expect_inv, cfg="Trace.cfg", heap="3g", every=False, big=False):
         """Corrupt one logged number of a recorded trace and require the trace specification to reject it.
         pick(ev) returns the Dyadic record (a dict inside ev) to corrupt, or None to skip the event.  The first
-        event for which pick returns a record is corrupted (one mantissa limb changed).  A trace specification that
+        event for which pick returns a record is corrupted (its value roughly doubled or halved).  A trace specification that
         still accepts is blind to that field: that is a failure of the machinery (exit 2), never a verdict."""
         import tlc
         lines = open(trace).read().splitlines()
@@ -90,7 +90,11 @@ class Ctx:
             ev = json.loads(ln)
             d = pick(ev)
             if d is not None and d.get("k") == "fin" and d.get("m"):
-                d["m"][-1] = d["m"][-1] + 1 if d["m"][-1] < 32767 else 1        # top limb: a relative change >= 3e-5
+                t = d["m"][-1]
+                if big:
+                    d["q"] += 1                                                   # times 2^15
+                else:
+                    d["m"][-1] = t * 2 if t * 2 < 32768 else max(1, t // 2)      # top limb: the value changes by about a factor 2
                 if "b" in d:
                     d["b"][1] = (d["b"][1] + 1) % 65536
                 lines[i] = json.dumps(ev)
